@@ -264,3 +264,40 @@ def literal_enum_build_contract():
 
 def all_contracts():
     return [model_build_contract(), enum_build_contract(), literal_enum_build_contract()]
+
+
+def import_filter_contract(which):
+    """ModelProperty.set_relative_imports / set_lazy_imports (C01: no module refers to a name it does not import): of the
+    imports handed in, exactly those that contain the model's own import line are dropped -- every other import is kept,
+    whatever its text (for a set of imports of any size: generic element)."""
+    Q = f"{P}.model_property:ModelProperty.set_{which}_imports"
+
+    def make(I):
+        from openapi_python_client.parser.properties import model_property as MP
+        from pyvc.symexec import SSeq
+        S = z3.StringSort()
+        base = z3.Const("imports", z3.SeqSort(I.Z.JV))
+        seq = SSeq(base, lambda x: I.Z.rec["str"](x), [])
+        info = SOpaque("class_info", attrs={"name": SStr(z3.Const("class_name", S)), "module_name": SStr(z3.Const("module_name", S))})
+        m = SObj(MP.ModelProperty, {"class_info": info, "name": "m", "required": True, "default": None, "python_name": "m",
+                                    "description": None, "example": None})
+        return SFunc("pyfunc", getattr(MP.ModelProperty, f"set_{which}_imports"), self_val=m), [seq], {}, {"m": m, "seq": seq, "which": which}
+
+    def post(ctx):
+        from pyvc.symexec import SFiltered
+        I, i = ctx.I, ctx.inputs
+        stored = i["m"].fields.get(f"{i['which']}_imports")
+        if not isinstance(stored, SFiltered) or stored.seq is not i["seq"]:
+            return False
+        xs = z3.Const("some_import", z3.StringSort())
+        own = z3.Concat(z3.StringVal("models."), z3.Const("module_name", z3.StringSort()), z3.StringVal(" import "),
+                        z3.Const("class_name", z3.StringSort()))
+        kept = stored.keep(SStr(xs))
+        img = stored.image(SStr(xs))
+        same = I.to_str_term(img) == xs
+        return z3.And(kept == z3.Not(z3.Contains(xs, own)), same)
+
+    cl = Clause("only-the-own-import-is-dropped", post,
+                statement=f"set_{which}_imports stores, unchanged, exactly the imports that do not contain the model's own import line "
+                          f"`models.<module> import <Class>` (generic import string)", props=["C01"])
+    return FnContract(Q, [Case("any-set-of-imports", make, [cl], raises=(), props=["C01"])])
